@@ -99,7 +99,10 @@ def bounded(tier, seed, repo_root):
     pairs, exhaustive = D.sample_pairs(docs, budget, seed)
     jobs = [(a, b, gt.OPTION_COMBOS[i % 9]) for i, (a, b) in enumerate(pairs)]
     base = [{"a": 1, "b": 2, "c": 3}, {"b": 2, "d": 4}, {"a": {"a": 1, "b": 2}, "b": [1, 2]}, {"a": {"b": 2, "c": 1}, "c": [1, 2]},
-            [1, 2, 3], [1, 5], [3, 2, 1], [[1, 2], [3]], [[1], [2, 3]], {"k": [1, 2, 3]}, {"k": [1, 5]}, {"x": 1, "a": 1}]
+            [1, 2, 3], [1, 5], [3, 2, 1], [[1, 2], [3]], [[1], [2, 3]], {"k": [1, 2, 3]}, {"k": [1, 5]}, {"x": 1, "a": 1},
+            # mixed integer / string keys as YAML allows (LeafNode.__lt__ falls back to comparing text)
+            {9: "n", 10: "t", "5": "aaaaaaaaaaaa"}, {9: "n", 10: "t", "5": "zzzzzzzzzzzz", "6": "aaaaaaaaaaaa"},
+            {1: "a", "1x": "b", 20: "c", "3": "d"}, {"3": "e", 20: "c", 100: "q", "1x": "bb"}]
     for a in base:
         for b in base:
             for o in gt.OPTION_COMBOS:
